@@ -163,7 +163,7 @@ func (f *jsonFam) stress(x *exec, r *rng) {
 		insaneJSON.Release(seqRoot)
 		x.count("stress_sequential_docs_cut", int64(cuts))
 
-		rounds := 60 // x 24 documents x 2 entries per goroutine
+		rounds := 24 // x 24 documents per goroutine (entry drawn at random)
 		type bad struct {
 			di, ej int
 			got    string
